@@ -511,6 +511,22 @@ def handle(line: str) -> str:
                         problems.append("equal trees are two set members")
                 except TypeError:
                     problems.append("unhashable statement")
+            # get_params_dict() is the public way to copy a node: rebuilding the node from it gives an equal node, whatever its class inherits
+            for n in nodes[:200]:
+                if hasattr(n, "get_params_dict"):
+                    try:
+                        pd_ = n.get_params_dict()
+                        init_names = {f.name for f in _dc.fields(n) if f.init}
+                        n3 = type(n)(**{k_: v_ for k_, v_ in pd_.items() if k_ in init_names})
+                        if n3 != n or hash(n3) != hash(n):
+                            problems.append("%s: rebuilding the node from get_params_dict() gives a different node" % type(n).__name__)
+                        missing = init_names - set(pd_)
+                        if missing:
+                            problems.append("%s: get_params_dict() lacks the fields %s" % (type(n).__name__, sorted(missing)))
+                    except Exception as e_:  # noqa
+                        problems.append("%s: rebuilding the node from get_params_dict() raises %s" % (type(n).__name__, type(e_).__name__))
+                if len(problems) > 3:
+                    break
             # every field takes part in == : a copy that differs in exactly one scalar field (or has a shorter tuple) is a different value
             for n in nodes[:200]:
                 for f in _dc.fields(n):
